@@ -42,12 +42,16 @@ def umbra(r, s, r_body, r_sun):
     return rho - (xu - h) * math.tan(au)
 
 
-def penumbra(r, s, r_body, r_sun):
-    """> 0 in full sunlight, < 0 inside the penumbra cone (umbra included)."""
+def penumbra(r, s, r_body, r_sun, umbra_half_angle=False):
+    """> 0 in full sunlight, < 0 inside the penumbra cone (umbra included).
+
+    umbra_half_angle=True evaluates the same diverging cone with the *umbra* half-angle
+    asin((Rs - Rb)/d): not a physical quantity, only the description of a listed known finding of
+    the library (used to recognise that finding, never as the reference)."""
     d, h, rho = _split(r, s)
     if h <= 0:
         return max(rho, 1.0) + abs(h)
-    ap = math.asin((r_sun + r_body) / d)
+    ap = math.asin(((r_sun - r_body) if umbra_half_angle else (r_sun + r_body)) / d)
     xp = r_body / math.sin(ap)
     return rho - (xp + h) * math.tan(ap)
 
